@@ -228,7 +228,11 @@ def ps(body: list[S], ind: int) -> list[str]:
 			out.append(f'{t}while {pe(s.a)}:')
 			out.extend(ps(s.b, ind + 1))
 		elif k == 'for_range':
-			out.append(f'{t}for {s.a} in range({pe(s.b)}):')
+			if s.d:
+				begin, step = s.d   # range(begin, stop[, step])
+				out.append(f"{t}for {s.a} in range({pe(begin)}, {pe(s.b)}{', ' + pe(step) if step is not None else ''}):")
+			else:
+				out.append(f'{t}for {s.a} in range({pe(s.b)}):')
 			out.extend(ps(s.c, ind + 1))
 		elif k == 'for_list':
 			out.append(f'{t}for {s.a} in {pe(s.b)}:')
@@ -345,6 +349,10 @@ def walk_exprs(p: Prog):
 				yield from stmts(s.b)
 			elif s.k.startswith('for_'):
 				yield from rec(s.b, None, 0, 'range' if s.k == 'for_range' else 'iter')
+				if s.k == 'for_range' and s.d:
+					for x in s.d:
+						if x is not None:
+							yield from rec(x, None, 0, 'range-begin')
 				yield from stmts(s.c)
 			elif s.k in ('return', 'expr'):
 				yield from rec(s.a, None, 0, s.k)
@@ -825,6 +833,10 @@ class Gen:
 			return E('cmp', 'bool', [self.gen_float(env, d - 1), self.gen_float(env, d - 1)], op=[r.choice(CMP_OPS)])
 		if x < 0.70:
 			self.count('not')
+			if r.random() < 0.25:
+				# `not` directly on an int term (`not a % b`): same truth value in both languages, the grouping is the emitter's job
+				self.count('not:int')
+				return E('not', 'bool', [self.maybe_paren(self.gen_int(env, min(d - 1, 2)), 0.15)])
 			c = self.gen_bool(env, d - 1)
 			return E('not', 'bool', [self.maybe_paren(c, 0.3)])
 		if x < 0.86:
@@ -1389,7 +1401,39 @@ class Gen:
 			sub.mult, sub.in_loop = env.mult * max(n.hi, 1), True
 			sub.vars[i] = Var(i, 'int', 0, max(n.hi - 1, 0))
 			self.count('for:range')
-			body.append(S('for_range', i, n, self.loop_body(sub, depth)))
+			extra = None
+			if r.random() < 0.3:
+				# range(begin, stop[, step]): the arguments are pasted into `for (auto i = begin; i < stop; i += step)` after being split
+				# out of the rendered call text, so they must survive containing commas and brackets themselves (multi-argument calls)
+				def small_call() -> E:
+					k = r.random()
+					x = self.gen_int(env, 1, nonneg=False, cap=50)
+					if k < 0.45:
+						inner = E('call', 'int', [x, self.lit_int(1, 4)], val='min', lo=min(x.lo, 1), hi=4)
+						return E('call', 'int', [self.lit_int(0, 0), inner], val='max', lo=0, hi=4)
+					if k < 0.75:
+						hi = r.randint(1, 4)
+						return E('call', 'int', [E('call', 'int', [x], val='abs', lo=0, hi=max(abs(x.lo), abs(x.hi))), E('lit', 'int', val=hi, lo=hi, hi=hi)], val='min', lo=0, hi=hi)
+					hs = [h for h in self.helpers if h.ret == 'int' and len(h.params) >= 2 and 0 <= h.rlo and h.rhi <= 6 and not h.raises]
+					if hs:
+						return self.call_helper(env, r.choice(hs), 1)
+					a, b = r.randint(0, 4), r.randint(0, 4)
+					return E('call', 'int', [E('lit', 'int', val=a, lo=a, hi=a), E('lit', 'int', val=b, lo=b, hi=b)], val='max', lo=max(a, b), hi=max(a, b))
+				begin = small_call() if r.random() < 0.8 else self.lit_int(0, 3)
+				step = None
+				if r.random() < 0.4:
+					step = self.lit_int(1, 3)
+					if r.random() < 0.6:
+						n = small_call()   # a multi-argument call in the middle position
+				# a `<` (`<`, `<=`, `<<`) in a non-final argument is the known finding reject:range-angle-arg (probe programs only)
+				if '<' in pe(begin):
+					begin = self.lit_int(0, 3)
+				if step is not None and '<' in pe(n):
+					n = self.lit_int(0, 5)
+				sub.vars[i] = Var(i, 'int', min(begin.lo, 0), max(n.hi - 1, 0))
+				extra = (begin, step)
+				self.count('for:range-begin' + ('-step' if step is not None else ''))
+			body.append(S('for_range', i, n, self.loop_body(sub, depth), extra))
 		elif x < 0.55 and lists and min(v.maxlen for v in lists) <= 40:
 			v = r.choice([v for v in lists if v.maxlen <= 40])
 			xv = self.fresh('x')
@@ -1753,6 +1797,8 @@ PROBE_WHAT = {
 	'cxx:unmapped-method': 'list/str/dict methods without a C++ mapping are passed through under their Python or provisional (data/i18n.yml FIXME) name: '
 		'sort/reverse/index/remove, count/split/upper/lower/replace/strip/join, update — g++ rejects',
 	'ub:negative-index': '`xs[-1]` is emitted verbatim: out-of-bounds access in C++ (aborts under -D_GLIBCXX_ASSERTIONS)',
+	'reject:range-angle-arg': '`range(a << 1, n)` / `range(a < b, n)` / `range(lo, min(a << 1, 9), 2)`: a `<` in a non-final argument of a 2/3-argument range is taken for an opening '
+		'bracket when the rendered call text is split (BlockParser `<>` pair): Errors.Fatal <- ValueError "not enough values to unpack"',
 	'reject:block-scoped-name': 'a name first assigned inside a nested block (both if/else branches, a while/for body, the for variable) and read after the block '
 		'is valid Python (function-level scope) but is rejected: Errors.UnresolvedSymbol at the read, and Errors.Fatal <- RecursionError when the read is in `v = v + 1` '
 		'(the scope condition of C01.stmt_agree; the emitter never hoists a declaration)',
@@ -1811,6 +1857,13 @@ def probe_program(rng: random.Random, key: str | None = None) -> tuple[str, dict
 			ret = 'str'
 			args = {'upper': '', 'lower': '', 'replace': f"'{lit[:1]}', 'zz'", 'strip': f"'{lit[:1]}'"}[m]
 			body = f"\treturn s.{m}({args}) + '{lit}'\n"
+	elif key == 'reject:range-angle-arg':
+		sh = rng.randint(0, 2)
+		first = rng.choice([f'{a} << {sh}', f'min({a} << {sh}, 3)', f'abs({b}) << {sh}', f'int({a} < {b})'])
+		body = rng.choice([
+			f'\tt = 0\n\tfor i in range({first}, {rng.randint(2, 6)}):\n\t\tt += i + {e1}\n\treturn t\n',
+			f'\tt = 0\n\tfor i in range({rng.randint(0, 2)}, min({a} << {sh}, 6), {rng.randint(1, 2)}):\n\t\tt += i + {e1}\n\treturn t\n',
+		])
 	elif key == 'reject:block-scoped-name':
 		v = rng.choice(['v', 'w', 'acc'])
 		use = rng.choice([f'\treturn {v} + {e2}\n', f'\t{v} = {v} + {e2}\n\treturn {v}\n'])
@@ -1829,6 +1882,108 @@ def probe_program(rng: random.Random, key: str | None = None) -> tuple[str, dict
 	for v in args:
 		v[2] = ''.join(rng.choice('abxy ') for _ in range(rng.randint(1, 5)))
 	return key, {'source': source, 'entries': [{'fn': 'f', 'params': [t for _, t, _, _ in params], 'ret': ret, 'args': args}], 'classes': {}}
+
+
+# ---------------------------------------------------------------------------------------------
+# forced operator pairs for the SEARCH (the emit stream forces the same pairs on the model side)
+
+# (python operator, operand type, result type, python precedence level)
+PAIR_BIN = [('or', 'bool', 'bool', L_OR), ('and', 'bool', 'bool', L_AND),
+	*[(o, 'int', 'bool', L_CMP) for o in ('<', '>', '<=', '>=', '==', '!=')], ('==', 'bool', 'bool', L_CMP), ('!=', 'bool', 'bool', L_CMP),
+	('|', 'int', 'int', L_BOR), ('^', 'int', 'int', L_BXOR), ('&', 'int', 'int', L_BAND),
+	('|', 'bool', 'bool', L_BOR), ('&', 'bool', 'bool', L_BAND),   # bool ^ bool is rejected by tranp's type inference (no __xor__ on bool: C03's subject)
+	('<<', 'int', 'int', L_SHIFT), ('>>', 'int', 'int', L_SHIFT), ('+', 'int', 'int', L_SUM), ('-', 'int', 'int', L_SUM),
+	('*', 'int', 'int', L_TERM), ('%', 'int', 'int', L_TERM)]
+PAIR_UN = [('-', 'int', 'int', L_UN), ('+', 'int', 'int', L_UN), ('~', 'int', 'int', L_UN), ('not', 'bool', 'bool', L_NOT), ('not', 'int', 'bool', L_NOT)]
+PAIR_PARAMS = [('a', 'int'), ('b', 'int'), ('c', 'int'), ('p', 'bool'), ('q', 'bool'), ('r', 'bool')]
+
+
+def _pair_text(node: Any, need: int = 0) -> str:
+	"""minimal parentheses for Python (binary operators are left associative: the right operand needs a strictly higher level)"""
+	if isinstance(node, str):
+		return node
+	if node[0] == 'un':
+		_, op, lv, x = node
+		t = ('not ' if op == 'not' else op) + _pair_text(x, lv)
+	else:
+		_, op, lv, x, y = node
+		t = f'{_pair_text(x, lv)} {op} {_pair_text(y, lv + 1)}'
+	return f'({t})' if lv < need else t
+
+
+def _pair_full(node: Any) -> str:
+	if isinstance(node, str):
+		return node
+	if node[0] == 'un':
+		return f"({'not ' if node[1] == 'not' else node[1]}{_pair_full(node[3])})"
+	return f'({_pair_full(node[3])} {node[1]} {_pair_full(node[4])})'
+
+
+def pair_cases(rng: random.Random) -> list[dict[str, Any]]:
+	"""every parent x child operator pair (unary x binary, binary x binary x side, binary x unary on the right) that is well typed,
+	as `return <expr>` over int/bool parameters, printed with Python's minimal parentheses (so a child of lower precedence is
+	an explicit Group, a child of higher precedence is bare). Each case carries the *other* grouping of the same operator sequence
+	and argument vectors on which the two groupings differ: a wrong grouping in the emitted C++ changes a compared value."""
+	atoms = {'int': ['a', 'b', 'c'], 'bool': ['p', 'q', 'r']}
+	cases: list[dict[str, Any]] = []
+
+	def add(key: str, tree: Any, alt: Any, ret: str) -> None:
+		cases.append({'key': key, 'expr': _pair_text(tree), 'full': _pair_full(tree), 'alt': _pair_full(alt), 'ret': ret})
+
+	for cop, cty, cres, clv in PAIR_BIN:
+		x, y, z = atoms[cty][0], atoms[cty][1], atoms[cres][2]
+		child = ('bin', cop, clv, x, y)
+		for uop, uty, ures, ulv in PAIR_UN:
+			if uty == cres:
+				add(f'pair:{uop}/{cop}:{cty}', ('un', uop, ulv, child), ('bin', cop, clv, ('un', uop, ulv, x), y), ures)
+		for pop, pty, pres, plv in PAIR_BIN:
+			if pty != cres or (plv == L_CMP and clv == L_CMP):
+				continue   # comparison under comparison = a chain when bare (known finding chain-compare)
+			add(f'pair:{pop}/{cop}:{cty}:left', ('bin', pop, plv, child, z), ('bin', cop, clv, x, ('bin', pop, plv, y, z)), pres)
+			child_r = ('bin', cop, clv, atoms[cty][1], atoms[cty][2])
+			z0 = atoms[cres][0]
+			add(f'pair:{pop}/{cop}:{cty}:right', ('bin', pop, plv, z0, child_r), ('bin', cop, clv, ('bin', pop, plv, z0, atoms[cty][1]), atoms[cty][2]), pres)
+	for pop, pty, pres, plv in PAIR_BIN:
+		for uop, uty, ures, ulv in PAIR_UN:
+			if ures == pty:
+				x, y = atoms[pty][0], atoms[uty][1]
+				add(f'pair:{pop}/un{uop}:{uty}:right', ('bin', pop, plv, x, ('un', uop, ulv, y)), ('bin', pop, plv, x, y), pres)
+				add(f'pair:{pop}/un{uop}:{uty}:left', ('bin', pop, plv, ('un', uop, ulv, y), x), ('un', uop, ulv, ('bin', pop, plv, y, x)), pres)
+	for uop, uty, ures, ulv in PAIR_UN:
+		for vop, vty, vres, vlv in PAIR_UN:
+			if vres == uty:
+				add(f'pair:{uop}/un{vop}:{vty}', ('un', uop, ulv, ('un', vop, vlv, atoms[vty][0])), atoms[vty][0], ures)
+	grid = {'int': [0, 1, 2, 3, 4, 5, 6, 7, 9, 12, -1, -2, -5], 'bool': [False, True]}
+	for c in cases:
+		conv = bool if c['ret'] == 'bool' else int
+		good: list[list[Any]] = []
+		plain: list[list[Any]] = []
+		for _ in range(120):
+			v = {n: rng.choice(grid[ty]) for n, ty in PAIR_PARAMS}
+			try:
+				x1 = conv(eval(c['full'], {}, dict(v)))  # noqa: S307 - operator expression over the six parameters built above
+			except (ZeroDivisionError, ValueError, OverflowError):
+				continue
+			try:
+				x2 = conv(eval(c['alt'], {}, dict(v)))  # noqa: S307
+			except (ZeroDivisionError, ValueError, OverflowError, TypeError):
+				x2 = None
+			vec = [v[n] for n, _ in PAIR_PARAMS]
+			(good if x2 is not None and x1 != x2 else plain).append(vec)
+		c['args'] = (good[:7] + plain[:3])[:10] or [[1, 2, 3, True, False, True]]
+		c['distinguishing'] = min(len(good), 7)
+	return cases
+
+
+def pair_programs(rng: random.Random, cases: list[dict[str, Any]], per_program: int = 12) -> list[tuple[list[dict[str, Any]], dict[str, Any]]]:
+	sig = ', '.join(f'{n}: {ty}' for n, ty in PAIR_PARAMS)
+	out = []
+	for i in range(0, len(cases), per_program):
+		chunk = cases[i:i + per_program]
+		src = '\n\n'.join(f"def f{k}({sig}) -> {c['ret']}:\n\treturn {c['expr']}\n" for k, c in enumerate(chunk))
+		entries = [{'fn': f'f{k}', 'params': [ty for _, ty in PAIR_PARAMS], 'ret': c['ret'], 'args': c['args']} for k, c in enumerate(chunk)]
+		out.append((chunk, {'source': src, 'entries': entries, 'classes': {}}))
+	return out
 
 
 def generate(rng: random.Random, size: int = 2, kind: str | None = None) -> tuple[Prog, dict[str, int]]:
